@@ -177,6 +177,7 @@ def main(tier, seed):
         e.check_reachable()
         e.obligation("updated-mean-within-bounds", lambda i, o, lbv=lbv, ubv=ubv: [S.le(S.SA(lbv), S.SA(o[0])), S.le(S.SA(o[0]), S.SA(ubv))])
 
+    _pets_planner_bounds(rep, sess, tier, seed)
     _provenance(rep, tier, seed)
     if tier == "thorough":
         bad = sess.cross_check()
@@ -186,6 +187,29 @@ def main(tier, seed):
     rep.add_queries(sess)
     rep.samples = [o["name"] for o in rep.obligations if o["kind"] == "obligation"][:12]
     return rep.finish()
+
+
+def _pets_planner_bounds(rep, sess, tier, seed):
+    """PETS: the CEM sampler built by _init_mpc_optimizer_cem only proposes plans whose (time step, action dimension)
+    entries lie inside that dimension's own bounds."""
+    from rl_blox.algorithm import pets
+    H, n_samples = 2, 2
+    for d in ([2] if tier == "quick" else [1, 2, 3]):
+        low0 = -jnp.arange(1, d + 1, dtype=jnp.float32)
+        high0 = jnp.arange(1, d + 1, dtype=jnp.float32) * 3
+
+        def planner_samples(low, high, mean, var, key):
+            sample_fn, update_fn = pets._init_mpc_optimizer_cem(FakeBox(low, high), H, n_samples)
+            return sample_fn(mean, var, key)
+        ex = (low0, high0, jnp.zeros((H, d)), jnp.ones((H, d)) * 0.3, jax.random.key(seed))
+        e = E1(rep, sess, planner_samples, ex, f"pets._init_mpc_optimizer_cem+cem_sample[H={H},d={d}]", validate_sets=[ex])
+        low, high, mean, var, key = e.ins
+        lo_b, hi_b = S.bcast(S.SA(low).reshape(1, d), (H, d)), S.bcast(S.SA(high).reshape(1, d), (H, d))
+        e.add_hyp(S.SA(low) < S.SA(high), lo_b <= S.SA(mean), S.SA(mean) <= hi_b, S.SA(var) >= 0)
+        e.check_reachable()
+        e.obligation("planner-candidates-within-each-dimension's-own-bounds",
+                     lambda i, o, d=d: [S.le(S.bcast(S.SA(i[0]).reshape(1, 1, d), (n_samples, H, d)), S.SA(o)), S.le(S.SA(o), S.bcast(S.SA(i[1]).reshape(1, 1, d), (n_samples, H, d)))],
+                     site="pets._init_mpc_optimizer_cem:candidates-within-action-bounds")
 
 
 def _provenance(rep, tier, seed):
